@@ -2,11 +2,14 @@
 EXTENDS Writer, Json
 \* three abstract source versions over three output paths: a type changes (v2), a file disappears (v2),
 \* the helper file appears (v3) and disappears again (v1, v2), an output becomes empty (v4)
-MCVersions == {"v1", "v2", "v3", "v4"}
+\* v5: the sources of v1 with other line endings (CRLF): for backends that copy a multi-line doc comment through, the
+\* output differs from v1's in CR bytes only - a difference a line-wise comparison would not see
+MCVersions == {"v1", "v2", "v3", "v4", "v5"}
 MCGen == [v \in MCVersions |->
     CASE v = "v1" -> [a |-> "A1", b |-> "B1"]
       [] v = "v2" -> [a |-> "A2"]
       [] v = "v3" -> [a |-> "A1", b |-> "B3", codable |-> "CV"]
-      [] v = "v4" -> [a |-> "A1", b |-> ""]]
+      [] v = "v4" -> [a |-> "A1", b |-> ""]
+      [] v = "v5" -> [a |-> "A1cr", b |-> "B1"]]
 EmitHistory == PrintT(<<"REPLAY", ToJson([history |-> hist])>>)
 =============================================================================
